@@ -204,4 +204,11 @@ inductive CacheAct where
   | append | put | remove | mark | skip | abort | unknown
 deriving DecidableEq, Repr, Inhabited
 
+/-- which strconv function `resource.ParseVersion` applies to the version text (C18) -/
+inductive IntParser where
+  | parseInt    -- `strconv.ParseInt(ver, 10, 64)` then `uint64(..)`
+  | parseUint   -- `strconv.ParseUint(ver, 10, 64)`
+  | unknown
+deriving DecidableEq, Repr, Inhabited
+
 end Cosi.Gen
